@@ -35,7 +35,8 @@ LEVEL_TEXT = ("Every non-empty increasing subsequence of the time grid {0.5,1,2,
               ".npy/.txt/YAML/ndarray through the constructor, the setters and Readout.replace, in destructive and "
               "non-destructive mode; every subset of the 7 bucket kinds as write pattern and 4 detector histories "
               "(fresh, after a complete run, after a failed run, manually pre-filled) on the real CCD (and "
-              "CMOS/MKID/APD for a sub-family); 60+ invalid schedules through every entry point; all sequences of "
+              "CMOS/MKID/APD for a sub-family), also with the pattern in even and its complement in odd steps; 31 invalid schedules of 10 classes (empty, zero first, zero later, equal, decreasing, start >= first, "
+              "negative, NaN, NaN start, 2-D) in every representation through every entry point (704 cases); all sequences of "
               "<=3 setter operations over an alphabet of 12.  For each run the probe trace must equal the "
               "automaton's prediction: number and order of steps, (time, time_step, absolute_time, counter, "
               "first/last flags) in every model call, emptiness of scene/photon/charge/signal/image and the "
@@ -333,22 +334,16 @@ def expected_size(tier, seed):
 
 # ------------------------------------------------------------------ construction
 
-def _pipeline_groups(pattern, salt, boom=False, pattern_odd=None):
-    wargs = {"spec": _writer_spec(pattern), "salt": salt}
+def _pipeline_groups(pattern, salt, pattern_odd=None):
+    """observer first (scene_generation), writer in the middle, observer last (data_processing)"""
+    wargs = {"spec": _pattern_spec(pattern), "salt": salt}
     if pattern_odd is not None:
-        wargs["spec_odd"] = _writer_spec(pattern_odd)
-    groups = {
+        wargs["spec_odd"] = _pattern_spec(pattern_odd)
+    return {
         "scene_generation": [("vp.exp_util.observe", "first", {})],
         "charge_collection": [("vp.exp_util.write", "w", wargs)],
         "data_processing": [("vp.exp_util.observe", "last", {})],
     }
-    if boom:
-        groups["charge_measurement"] = [("vp.exp_util.tick", "boom", {})]
-    return groups
-
-
-def _writer_spec(pattern):
-    return _pattern_spec(pattern)
 
 
 def _rep_value(rep, times, tmp, tag="t"):
